@@ -70,7 +70,15 @@ func (r *Report) emit(o checkOpts, toolErrs []string) int {
 		failedByName[ob.Name] = append(failedByName[ob.Name], ob)
 	}
 	sort.Strings(failedNames)
+	unboundFuncs := map[string]bool{}
+	for _, ob := range failed {
+		// only clauses that are assumed further on (invariants, preconditions) can make other obligations fail by being absent
+		if ob.Verdict == "unbound" && (ob.Kind == "inv-init" || ob.Kind == "inv-keep" || ob.Kind == "pre") {
+			unboundFuncs[ob.Func] = true
+		}
+	}
 	violations := 0
+	decided := 0 // failed obligations that a solver refuted or could not discharge (as opposed to clauses that do not bind)
 	var knownHit []string
 	var violationLines []string
 	disagree := false
@@ -96,6 +104,11 @@ func (r *Report) emit(o checkOpts, toolErrs []string) int {
 			continue
 		}
 		violations++
+		if obl.Verdict != "unbound" && !(obl.Verdict != "sat" && unboundFuncs[obl.Func]) {
+			// a clause that does not bind is neither checked nor assumed, so an obligation of the same function that
+			// merely could not be discharged may be a consequence of the missing clause; only a refutation counts there
+			decided++
+		}
 		rp := r.writeReplay(o, obl)
 		line := fmt.Sprintf("VIOLATION property=%s replay=%s", r.id, rp.path)
 		if !rp.reproduced {
@@ -129,6 +142,14 @@ func (r *Report) emit(o checkOpts, toolErrs []string) int {
 		for _, v := range r.vac {
 			fmt.Println("   vacuity:", v.Name, v.Verdict, v.SolverNotes)
 		}
+	}
+	// When the only thing wrong is that contract clauses no longer bind to the code (a local they name was renamed, a
+	// loop they describe is gone) and every obligation that could be generated is discharged, nothing shows that the
+	// property is violated: the run is undecided. That is reported as a tool error (exit 2), not as a violation.
+	if violations > 0 && decided == 0 {
+		toolErrs = append(toolErrs, fmt.Sprintf("%d contract clause(s) do not bind to the current code or could not be discharged next to such a clause, and no obligation is refuted: the property is undecided until the contracts are migrated", violations))
+		violationLines = nil
+		violations = 0
 	}
 	nf := 0
 	for _, fr := range r.results {
